@@ -68,6 +68,7 @@ type Op struct {
 	Enabled func() bool // nil = always
 	Low     bool        // enabled only when nothing else is (quiescence wait)
 	Until   int64       // >0: enabled when virtual now >= Until
+	NowOnly bool        // with Low: runs before virtual time is advanced
 	sel     *selOp
 }
 
@@ -116,6 +117,7 @@ type Sched struct {
 	trace               []string
 	traceOn             bool
 	noUnlockPoints      bool
+	endWithMain         bool
 	User                any
 }
 
@@ -265,6 +267,15 @@ func (s *Sched) dispatch(self *thread) {
 		for _, t := range s.threads {
 			if t != self && t.enabled(s) {
 				en = append(en, t)
+			}
+		}
+		if len(en) == 0 {
+			// settle waiters: nothing can run at the current virtual time
+			for _, t := range s.threads {
+				if !t.done && t.pend != nil && t.pend.Low && t.pend.NowOnly {
+					en = append(en, t)
+					break
+				}
 			}
 		}
 		if len(en) == 0 {
@@ -427,6 +438,34 @@ func (s *Sched) Quiesce() {
 	}
 }
 
+// Threads describes every live thread and the operation it waits at (diagnostics).
+func (s *Sched) Threads() []string {
+	var out []string
+	for _, t := range s.threads {
+		if t.done {
+			continue
+		}
+		k := "running"
+		if t.pend != nil {
+			k = t.pend.Kind
+			if t.pend.sel != nil {
+				k += fmt.Sprintf("(%d cases)", len(t.pend.sel.cases))
+			}
+		}
+		out = append(out, fmt.Sprintf("%s(t%d)@%s", t.name, t.id, k))
+	}
+	return out
+}
+
+// Settle blocks until no other thread can make progress at the current virtual time;
+// pending timers and sleeps are left pending.
+func (s *Sched) Settle() {
+	s.Yield(&Op{Kind: "settle", Low: true, NowOnly: true})
+	for _, t := range s.threads {
+		s.cur.vc.join(t.vc)
+	}
+}
+
 func (s *Sched) spawn(name string, daemon bool, fn func()) *thread {
 	s.Point("spawn")
 	return s.spawnNoPoint(name, daemon, fn)
@@ -481,6 +520,10 @@ func (s *Sched) threadMain(t *thread, fn func()) {
 		}
 		if userPanic {
 			s.finish() // we are the running thread and already marked done
+			return
+		}
+		if t.id == 0 && s.endWithMain {
+			s.finish() // the harness body is over: whatever still runs is unwound
 			return
 		}
 		s.dispatch(t)
@@ -547,6 +590,7 @@ type RunOpts struct {
 	WatchdogS           int
 	NoUnlockPoints      bool
 	LoopHorizon         int // max `for` iterations between two visible operations (0 = 5e6)
+	EndWithMain         bool // the execution ends when the harness body returns (threads of the code under test may run for ever)
 }
 
 // Run executes body once under the scheduler, replaying prefix and taking choice
@@ -554,7 +598,7 @@ type RunOpts struct {
 func Run(prefix []int, o RunOpts, body func(s *Sched)) *Result {
 	s := &Sched{prefix: prefix, endCh: make(chan struct{}), horizon: o.Horizon, raceOn: o.Race,
 		allowBlockedDaemons: o.AllowBlockedDaemons, traceOn: o.Trace, now: o.StartNS, noUnlockPoints: o.NoUnlockPoints,
-		chans: map[uintptr]*chanModel{}, shadow: map[accKey]*shadowCell{}}
+		chans: map[uintptr]*chanModel{}, shadow: map[accKey]*shadowCell{}, endWithMain: o.EndWithMain}
 	if s.horizon == 0 {
 		s.horizon = 200000
 	}
@@ -608,6 +652,7 @@ type ExploreOpts struct {
 	NShards      int
 	FirstOnly    bool  // stop at the first failure of each signature (always true in effect)
 	DeadlineUnix int64 // wall-clock second after which the search stops and reports a cap (0 = none)
+	FreeCost     int   // cost of a non-default choice among threads after the running one blocked (0 = free, CHESS-style)
 }
 
 type Stats struct {
@@ -717,12 +762,12 @@ func (e *Explorer) explore(prefix []int, depth int) {
 	}
 	cost := 0
 	for i := 0; i < len(prefix); i++ {
-		cost += pointCost(x.Points[i], x.Points[i].Chosen)
+		cost += pointCost(x.Points[i], x.Points[i].Chosen, e.o.FreeCost)
 	}
 	for i := len(prefix); i < len(x.Points); i++ {
 		p := x.Points[i]
 		for alt := 1; alt < p.N; alt++ {
-			if cost+pointCost(p, alt) > e.o.Bound {
+			if cost+pointCost(p, alt, e.o.FreeCost) > e.o.Bound {
 				continue
 			}
 			// sharding on the first branching below the root
@@ -735,13 +780,16 @@ func (e *Explorer) explore(prefix []int, depth int) {
 			np := append(append([]int{}, x.Choices[:i]...), alt)
 			e.explore(np, depth+1)
 		}
-		cost += pointCost(p, p.Chosen) // always 0 beyond the prefix
+		cost += pointCost(p, p.Chosen, e.o.FreeCost) // always 0 beyond the prefix
 	}
 }
 
-func pointCost(p Point, alt int) int {
-	if alt == 0 || p.Free {
+func pointCost(p Point, alt int, freeCost int) int {
+	if alt == 0 {
 		return 0
+	}
+	if p.Free {
+		return freeCost
 	}
 	if p.Env || p.Preemptive {
 		return 1
